@@ -433,6 +433,90 @@ func propC05(c *Ctx) {
 	c.ruleHasBeforeSet()
 	c.ruleTagPriority("C05-TAG-PRIORITY")
 	c.ruleValidatorsComplete()
+	c.ruleUpdateKeepsEntry()
+}
+
+// ruleUpdateKeepsEntry: an entry of a catalog collection accumulates its cross-references (a tag its interaction
+// groups, an interaction its tags, responses and bodies). The closure handed to Update must hand back the entry it was
+// given: storing a rebuilt copy drops whatever the other side of a cross-reference had already written into it.
+func (c *Ctx) ruleUpdateKeepsEntry() {
+	r := c.R
+	r.Rule("C05-UPDATE-KEEPS-ENTRY", "every closure passed to Update of a catalog collection returns, on each of its returns, the entry it was given (its own parameter): the entry is changed in place, never replaced by a rebuilt copy that lacks the links other directives added", 5)
+	n := 0
+	for _, f := range c.libFns() {
+		pk := f.Pkg
+		ast.Inspect(f.Decl.Body, func(nd ast.Node) bool {
+			call, ok := nd.(*ast.CallExpr)
+			if !ok || len(call.Args) != 2 {
+				return true
+			}
+			cal := callee(pk, call)
+			if cal == nil || cal.Name() != "Update" {
+				return true
+			}
+			sel, ok := ast.Unparen(call.Fun).(*ast.SelectorExpr)
+			if !ok || !orderedMapType(pk.TypesInfo.TypeOf(sel.X)) {
+				return true
+			}
+			fl, ok := call.Args[1].(*ast.FuncLit)
+			if !ok || len(fl.Type.Params.List) != 1 || len(fl.Type.Params.List[0].Names) != 1 {
+				return true
+			}
+			n++
+			param := pk.TypesInfo.Defs[fl.Type.Params.List[0].Names[0]]
+			key := fmt.Sprintf("%s | %s.Update", f.Name(), exprString(sel.X))
+			bad := ""
+			reassigned := false
+			ast.Inspect(fl.Body, func(m ast.Node) bool {
+				switch x := m.(type) {
+				case *ast.FuncLit:
+					return x == fl
+				case *ast.AssignStmt:
+					for _, l := range x.Lhs {
+						if id, ok := ast.Unparen(l).(*ast.Ident); ok && pk.TypesInfo.Uses[id] == param {
+							reassigned = true
+						}
+					}
+				case *ast.ReturnStmt:
+					if len(x.Results) != 1 {
+						bad = "unexpected results"
+						break
+					}
+					res := ast.Unparen(x.Results[0])
+					// v, or v.(T) / T(v) of the same entry
+					for {
+						switch y := res.(type) {
+						case *ast.TypeAssertExpr:
+							res = ast.Unparen(y.X)
+							continue
+						case *ast.CallExpr:
+							if len(y.Args) == 1 && pk.TypesInfo.Types[y.Fun].IsType() {
+								res = ast.Unparen(y.Args[0])
+								continue
+							}
+						}
+						break
+					}
+					if id, ok := res.(*ast.Ident); !ok || pk.TypesInfo.Uses[id] != param {
+						bad = "returns " + exprString(x.Results[0]) + " instead of the entry it was given"
+					}
+				}
+				return true
+			})
+			if reassigned {
+				bad = "the parameter is reassigned inside the closure"
+			}
+			if bad == "" {
+				r.Ok("C05-UPDATE-KEEPS-ENTRY", key, "every return hands back the closure's own parameter", c.pos(fl.Pos()))
+			} else {
+				r.Bad("C05-UPDATE-KEEPS-ENTRY", key, bad+": the links that other directives wrote into the stored entry (a tag's interactions, an interaction's tags and responses) are lost", c.pos(fl.Pos()))
+			}
+			return true
+		})
+	}
+	if n == 0 {
+		r.Undecided("C05-UPDATE-KEEPS-ENTRY", "sites", "no Update closure found", "")
+	}
 }
 
 func (c *Ctx) ruleTagPairing() {
